@@ -855,11 +855,11 @@ func runC18(c *Ctx) {
 			h.prepare(p)
 			h.hookSweep(p, true)
 		}
-		// timed kills on a state with many bindings (the save takes a few hundred microseconds)
-		tp := &pair{name: "timed-many", hasOld: true, oldSrc: manyBindings("v", 200, 200, "old"), newSrc: manyBindings("v", 300, 200, "new")}
+		// timed kills on a state with many bindings (300 writes: the save takes a few hundred microseconds)
+		tp := &pair{name: "timed-many", hasOld: true, oldSrc: manyBindings("v", 200, 60, "old"), newSrc: manyBindings("v", 300, 60, "new")}
 		h.prepare(tp)
 		for i := 0; i < 200; i++ {
-			h.scenario(tp, fmt.Sprintf("timed:%d", c.R.Intn(1500)))
+			h.scenario(tp, fmt.Sprintf("timed:%d", c.R.Intn(600)))
 		}
 	}
 	c.Extra["scratch_dirs_used"] = h.nDirs
